@@ -542,6 +542,8 @@ def run_valid(model, ctx):
                 if dx != ds:
                     ctx.violation('xls-xlsx-differ:services', _first_diff(dx, ds))
                 check_services(ctx, model, dx, facts=facts)
+                if not ctx.violations:
+                    check_services(ctx, model, ds, tag=':xls', facts=facts)
     finally:
         netgen.reset_sim_params()
 
@@ -775,9 +777,9 @@ def shape_case(draw):
 
 
 CHECKS = [
-    Check('valid', wbk.valid_model(), run_valid, quick=450, thorough=20000,
+    Check('valid', wbk.valid_model(), run_valid, quick=380, thorough=20000,
           doc='valid workbooks: .xlsx and stubbed .xls conversion vs model oracle, load+design, service sheet'),
-    Check('invalid', wbk.invalid_model(), run_invalid, quick=350, thorough=12000,
+    Check('invalid', wbk.invalid_model(), run_invalid, quick=300, thorough=12000,
           doc='valid model + one documented rule violation => NetworkTopologyError on both branches'),
     Check('shapes', shape_case(), run_shape, quick=80, thorough=2000,
           doc='FUSED degree != 2, self-link, re-typed ROADM with Eqpt rows, numeric impairment id, loose? values'),
